@@ -1092,6 +1092,18 @@ func (f *FuncCtx) loopCommon(label string, env *Env, fl *flow, nodes []ast.Node,
 			}
 		}
 	}
+	if c != nil && len(c.LoopBrk[ord]) > 0 {
+		// loop N break e: every break statement that leaves this loop is executed in a state satisfying e
+		for k, cl := range c.LoopBrk[ord] {
+			for j, be := range inner.brk {
+				if be.dead {
+					continue
+				}
+				g := f.evalClause(cl, be, sc(be))
+				f.obligeIn(fmt.Sprintf("%s.break#%d.%d", prefix, j+1, k+1), "loop.break", be, g, cl.Text, fmt.Sprintf("%s:%d", shortPath(cl.File), cl.Line))
+			}
+		}
+	}
 	back := f.merge(append([]*Env{end}, inner.cont...))
 	if !back.dead {
 		if post != nil {
@@ -1272,7 +1284,172 @@ func (f *FuncCtx) forStmt(s *ast.ForStmt, env *Env, fl *flow, label string) *Env
 	if s.Post != nil {
 		nodes = append(nodes, s.Post)
 	}
+	if ghost, implicit, gpost := f.countedFor(s, env, post); ghost != nil {
+		return f.loopCommon(label, env, fl, nodes, s.Body.Lbrace, ghost, implicit, cond, nil, s.Body, gpost)
+	}
 	return f.loopCommon(label, env, fl, nodes, s.Body.Lbrace, nil, nil, cond, nil, s.Body, post)
+}
+
+// countedFor gives a three-clause loop `for i := a; i < n; i++` whose body never assigns i the iteration ghost $i of a
+// range loop (i == a + $i, $i >= 0, and i <= n while n is a length or variable the loop leaves alone), so that an
+// invariant written over $i reads the same whether the loop is written with range or with an index. Only when the
+// invariants of this loop mention $i: other loops are generated exactly as before.
+func (f *FuncCtx) countedFor(s *ast.ForStmt, env *Env, post func(e *Env)) (map[string]Val, func(e *Env) []string, func(e *Env)) {
+	fr := f.fr
+	c := fr.c
+	for p := fr.parent; c == nil && p != nil; p = p.parent {
+		c = p.c
+	}
+	ord := fr.loopOrd + 1
+	if c == nil || s.Init == nil || s.Post == nil || s.Cond == nil {
+		return nil, nil, nil
+	}
+	uses := false
+	for _, cl := range c.LoopInv[ord] {
+		if strings.Contains(cl.Text, "$i") {
+			uses = true
+		}
+	}
+	for _, cl := range c.LoopRet[ord] {
+		if strings.Contains(cl.Text, "$i") {
+			uses = true
+		}
+	}
+	if !uses {
+		return nil, nil, nil
+	}
+	as, ok := s.Init.(*ast.AssignStmt)
+	if !ok || as.Tok != token.DEFINE || len(as.Lhs) != 1 || len(as.Rhs) != 1 {
+		return nil, nil, nil
+	}
+	id, ok := as.Lhs[0].(*ast.Ident)
+	if !ok {
+		return nil, nil, nil
+	}
+	obj := f.info().Defs[id]
+	inc, ok := s.Post.(*ast.IncDecStmt)
+	if !ok || inc.Tok != token.INC || obj == nil {
+		return nil, nil, nil
+	}
+	if pid, ok := inc.X.(*ast.Ident); !ok || f.info().ObjectOf(pid) != obj {
+		return nil, nil, nil
+	}
+	be, ok := s.Cond.(*ast.BinaryExpr)
+	if !ok || be.Op != token.LSS {
+		return nil, nil, nil
+	}
+	if cid, ok := be.X.(*ast.Ident); !ok || f.info().ObjectOf(cid) != obj {
+		return nil, nil, nil
+	}
+	// the body must not assign the index (or take its address), and must not assign the variable behind the bound
+	var boundObj types.Object
+	switch n := ast.Unparen(be.Y).(type) {
+	case *ast.Ident:
+		boundObj = f.info().ObjectOf(n)
+	case *ast.CallExpr:
+		if fid, ok := n.Fun.(*ast.Ident); ok && fid.Name == "len" && len(n.Args) == 1 {
+			if aid, ok := ast.Unparen(n.Args[0]).(*ast.Ident); ok {
+				boundObj = f.info().ObjectOf(aid)
+			}
+		}
+	case *ast.BasicLit:
+	default:
+		return nil, nil, nil
+	}
+	bad := false
+	ast.Inspect(s.Body, func(n ast.Node) bool {
+		switch st := n.(type) {
+		case *ast.AssignStmt:
+			for _, l := range st.Lhs {
+				if lid, ok := ast.Unparen(l).(*ast.Ident); ok {
+					if o := f.info().ObjectOf(lid); o == obj || (boundObj != nil && o == boundObj) {
+						bad = true
+					}
+				}
+			}
+		case *ast.IncDecStmt:
+			if lid, ok := ast.Unparen(st.X).(*ast.Ident); ok {
+				if o := f.info().ObjectOf(lid); o == obj || (boundObj != nil && o == boundObj) {
+					bad = true
+				}
+			}
+		case *ast.UnaryExpr:
+			if st.Op == token.AND {
+				if lid, ok := ast.Unparen(st.X).(*ast.Ident); ok {
+					if o := f.info().ObjectOf(lid); o == obj || (boundObj != nil && o == boundObj) {
+						bad = true
+					}
+				}
+			}
+		case *ast.RangeStmt:
+			for _, l := range []ast.Expr{st.Key, st.Value} {
+				if lid, ok := l.(*ast.Ident); ok && st.Tok == token.ASSIGN {
+					if o := f.info().ObjectOf(lid); o == obj || (boundObj != nil && o == boundObj) {
+						bad = true
+					}
+				}
+			}
+		}
+		return !bad
+	})
+	// a function literal anywhere in the enclosing function that assigns the index or the bound could run inside the body
+	root := f.fr
+	for root.parent != nil {
+		root = root.parent
+	}
+	if root.scope != nil && !bad {
+		ast.Inspect(root.scope, func(n ast.Node) bool {
+			lit, ok := n.(*ast.FuncLit)
+			if !ok {
+				return !bad
+			}
+			ast.Inspect(lit.Body, func(m ast.Node) bool {
+				var targets []ast.Expr
+				switch st := m.(type) {
+				case *ast.AssignStmt:
+					targets = st.Lhs
+				case *ast.IncDecStmt:
+					targets = []ast.Expr{st.X}
+				}
+				for _, l := range targets {
+					if lid, ok := ast.Unparen(l).(*ast.Ident); ok {
+						if o := f.info().ObjectOf(lid); o == obj || (boundObj != nil && o == boundObj) {
+							bad = true
+						}
+					}
+				}
+				return !bad
+			})
+			return !bad
+		})
+	}
+	if bad || f.S.bv {
+		return nil, nil, nil
+	}
+	start, ok := env.vars[obj]
+	if !ok || !isInteger(start.Typ) {
+		return nil, nil, nil
+	}
+	startT := start.T
+	iName := "$i"
+	iNameN := fmt.Sprintf("$i%d", ord)
+	intT := types.Typ[types.Int]
+	ghost := map[string]Val{iNameN: {T: "0", Typ: intT}, iName: {T: "0", Typ: intT}}
+	implicit := func(e *Env) []string {
+		e.names[iName] = e.names[iNameN]
+		g := e.names[iNameN].T
+		iv := e.vars[obj].T
+		out := []string{fmt.Sprintf("(<= 0 %s)", g), fmt.Sprintf("(= %s (+ %s %s))", iv, startT, g)}
+		bound := f.expr(be.Y, e).T
+		out = append(out, fmt.Sprintf("(or (<= %s %s) (= %s 0))", iv, bound, g))
+		return out
+	}
+	gpost := func(e *Env) {
+		post(e)
+		e.names[iNameN] = Val{T: fmt.Sprintf("(+ %s 1)", e.names[iNameN].T), Typ: intT}
+		e.names[iName] = e.names[iNameN]
+	}
+	return ghost, implicit, gpost
 }
 
 func (f *FuncCtx) rangeStmt(s *ast.RangeStmt, env *Env, fl *flow, label string) *Env {
